@@ -226,6 +226,10 @@ func (p *protocol) handleTransactionPayload(ctx context.Context, connection grpc
 	}
 
 	// it's saved, remove the job
+	if p.privatePayloadReceiver == nil {
+		// no node DID configured: the payload scheduler was never started, so there is no job to remove
+		return nil
+	}
 	return p.privatePayloadReceiver.Finished(ref)
 }
 
